@@ -24,4 +24,9 @@ let () = iter_lines (fun l ->
       let (dec, ra) = psi2decra numf (fl sd) (fl sr) (fl psi) (fl t) in
       let ((x, y), z) = p2d_xyz numf (fl sd) (fl sr) (fl psi) (fl t) in
       pr [dec; ra; x; y; z]
+  | ["rses"; sr; sd; tr; td; rr; rd] ->
+      let (ra, dec) = rses_ap numf (fl sr) (fl sd) (fl tr) (fl td) (fl rr) (fl rd) in pr [ra; dec]
+  | ["apsep"; a; b; c; d] -> pr [ap_separation numf (fl a) (fl b) (fl c) (fl d)]
+  | ["appa"; a; b; c; d] -> pr [ap_position_angle numf (fl a) (fl b) (fl c) (fl d)]
+  | ["apoff"; a; b; c; d] -> let (lo, la) = ap_offset_by numf (fl a) (fl b) (fl c) (fl d) in pr [lo; la]
   | _ -> print_endline "ERR")
